@@ -27,12 +27,27 @@ pub fn message_class(norm: &str) -> String {
         let Some(j) = s[i..].find(']') else { break };
         s.replace_range(i..i + j + 1, "[#..]");
     }
-    // 3. `Err` payloads of unwrap/expect: keep the error type / kind, not the text
-    if let Some(i) = s.find("Custom { kind: ") {
-        let rest = &s[i + 15..];
-        let kind: String = rest.chars().take_while(|c| c.is_alphanumeric()).collect();
-        s.truncate(i);
-        s.push_str(&format!("Custom({kind})"));
+    // 3. `Err` payloads of unwrap/expect: keep the error type (and the io::ErrorKind), not its contents
+    if let Some(i) = s.find("on an `Err` value: ") {
+        let j = i + "on an `Err` value: ".len();
+        let rest = s[j..].to_string();
+        let payload = if let Some(k) = rest.find("kind: ") {
+            let kind: String = rest[k + 6..].chars().take_while(|c| c.is_alphanumeric()).collect();
+            format!("io::Error({kind})")
+        } else if rest.starts_with("Kind(") {
+            let kind: String = rest[5..].chars().take_while(|c| c.is_alphanumeric()).collect();
+            format!("io::Error({kind})")
+        } else {
+            rest.chars().take_while(|c| c.is_alphanumeric() || matches!(c, '_' | ':' | '#')).collect()
+        };
+        s.truncate(j);
+        s.push_str(&payload);
+    }
+    // todo!() / unimplemented!() with a Debug rendering of the offending value
+    for key in ["not yet implemented", "not implemented"] {
+        if let Some(i) = s.find(key) {
+            s.truncate(i + key.len());
+        }
     }
     // 4. char literals
     let mut out = String::new();
@@ -57,9 +72,47 @@ pub fn message_class(norm: &str) -> String {
     out
 }
 
+thread_local! {
+    /// first harness frame of the last panic whose location was outside /repo: (file, line)
+    static HARNESS_FRAME: std::cell::RefCell<Option<(String, u32)>> = const { std::cell::RefCell::new(None) };
+}
+
+static KNOWN_REL: std::sync::OnceLock<std::collections::HashSet<String>> = std::sync::OnceLock::new();
+
+/// Signatures listed in `findings/C15.known` (used by the `chk` build to tell panics that also exist in the
+/// shipped profile from those that only exist with overflow checks / debug assertions).
+pub fn known_rel() -> &'static std::collections::HashSet<String> {
+    KNOWN_REL.get_or_init(Default::default)
+}
+
+pub fn load_known(ctx: &vcore::Ctx) {
+    let root = ctx.replays.parent().map(|p| p.to_path_buf()).unwrap_or_default();
+    let mut set = std::collections::HashSet::new();
+    if let Ok(s) = std::fs::read_to_string(root.join("findings/C15.known")) {
+        for line in s.lines() {
+            if let Some(rest) = line.strip_prefix("known: property=C15 sig=") {
+                set.insert(rest.split(" :: ").next().unwrap_or(rest).to_string());
+            }
+        }
+    }
+    let _ = KNOWN_REL.set(set);
+}
+
+fn source_line(file: &str, line: u32) -> String {
+    std::fs::read_to_string(file).ok().and_then(|s| s.lines().nth(line.saturating_sub(1) as usize).map(|l| l.trim().to_string())).unwrap_or_default()
+}
+
 /// The call-site signature used by C15: `<file>|<source line>|<message class>[ via <dep file>]`.
 pub fn site_sig(p: &PanicInfo) -> String {
     let norm = guard::normalise_message(&p.message);
+    if !p.file.contains("/repo/noodles") {
+        // no noodles frame on the stack trace that vcore could resolve: the panic was raised in harness code by a
+        // value a noodles accessor handed out; name the harness line that used the accessor
+        if let Some((f, l)) = HARNESS_FRAME.with(|h| h.borrow().clone()) {
+            let rel = f.rsplit("harness/").next().unwrap_or(&f).to_string();
+            return format!("via-harness:{rel}|{}|{}", source_line(&f, l), message_class(&norm));
+        }
+    }
     match p.sig.rfind(&norm) {
         Some(i) if !norm.is_empty() => {
             let head = &p.sig[..i];
@@ -90,6 +143,30 @@ pub fn install_hook() {
     WRAP.call_once(|| {
         let prev = std::panic::take_hook();
         std::panic::set_hook(Box::new(move |info| {
+            let outside = info.location().map(|l| !l.file().contains("/repo/noodles")).unwrap_or(true);
+            if outside {
+                let bt = std::backtrace::Backtrace::force_capture().to_string();
+                let mut found = None;
+                if !bt.contains("/repo/noodles") {
+                    for l in bt.lines() {
+                        let l = l.trim();
+                        if let Some(rest) = l.strip_prefix("at ") {
+                            if (rest.contains("harness/corpus/") || rest.contains("harness/c15/")) && !rest.contains("c15/src/sigs.rs") {
+                                let mut it = rest.rsplitn(3, ':');
+                                let _col = it.next();
+                                let line = it.next().and_then(|s| s.parse().ok());
+                                if let (Some(f), Some(n)) = (it.next(), line) {
+                                    found = Some((f.to_string(), n));
+                                    break;
+                                }
+                            }
+                        }
+                    }
+                }
+                HARNESS_FRAME.with(|h| *h.borrow_mut() = found);
+            } else {
+                HARNESS_FRAME.with(|h| *h.borrow_mut() = None);
+            }
             if let Some(sh) = crate::alloc::shared() {
                 sh.panics_in_probe.fetch_add(1, std::sync::atomic::Ordering::Relaxed);
                 let msg = if let Some(s) = info.payload().downcast_ref::<&str>() {
